@@ -303,6 +303,164 @@ func c16Burst(rng *rand.Rand, seq int) (viol string, stats map[string]int) {
 	return "", stats
 }
 
+// c16Reaper: the node's own reaper (every other phase switches it off) erases failed members while the
+// application is not reading, so that the reaper's first reap event waits on the full pipeline; meanwhile one
+// of the members it is about to erase (or has just erased) comes back. Real time; no verdict depends on how
+// fast anything runs. Rules (no coalescing, nothing dropped, so what the application receives IS the member's
+// sequence of status changes): a reap directly follows a failed or leave event of that member - only departed
+// members are erased, and a join in between makes the member alive -, and the last event received for a member
+// matches what the node lists for it at the end (seeded C16-i: reap events sent after the lock is released).
+func c16Reaper(rng *rand.Rand, seq int) (viols []string, stats map[string]int) {
+	stats = map[string]int{}
+	nw := simnet.New(int64(seq))
+	reconnect := time.Duration(120+rng.Intn(60)) * time.Millisecond
+	nd, err := cluster.Start(nw, cluster.Opts{Name: fmt.Sprintf("reaper-%d", seq), IP: "10.16.2.1", Profile: "passive", NoDrain: true, EventBuf: 1,
+		Mutate: func(c *serf.Config) {
+			c.ReapInterval = 5 * time.Millisecond
+			c.ReconnectTimeout = reconnect
+			c.TombstoneTimeout = reconnect
+		}})
+	if err != nil {
+		return []string{"setup: " + err.Error()}, stats
+	}
+	nm := 2 + rng.Intn(3)
+	type ev struct{ kind, v string }
+	got := map[string][]ev{}
+	var pause atomic.Bool
+	done := make(chan struct{})
+	go func() {
+		defer close(done)
+		for e := range nd.Ch {
+			for pause.Load() {
+				time.Sleep(200 * time.Microsecond)
+			}
+			if me, ok := e.(serf.MemberEvent); ok {
+				for _, m := range me.Members {
+					got[m.Name] = append(got[m.Name], ev{c16Kind(me.Type), m.Tags["v"]})
+				}
+			}
+			if ue, ok := e.(serf.UserEvent); ok && ue.Name == "reaper-end" {
+				return
+			}
+		}
+	}()
+	node := func(i int, v string) *memberlist.Node {
+		return cluster.FakeNode(fmt.Sprintf("m%d", i), fmt.Sprintf("10.16.2.%d", 10+i), 7946, wire.EncodeTags(map[string]string{"v": v}))
+	}
+	for i := 0; i < nm; i++ {
+		nd.NotifyJoin(node(i, "1"))
+	}
+	for i := 0; i < nm; i++ {
+		nd.NotifyLeave(node(i, "1"))
+	}
+	t0 := time.Now()
+	// the application stops reading; user events fill the pipeline until a handler blocks
+	pause.Store(true)
+	var floodAt atomic.Uint32
+	var floodDone atomic.Bool
+	g := newBGroup()
+	g.Go(func() {
+		defer floodDone.Store(true)
+		for k := uint32(1); k <= 1100; k++ {
+			floodAt.Store(k)
+			nd.NotifyMsg(wire.Encode(wire.UserEvent, &wire.MsgUserEvent{LTime: uint64(k), Name: "fill", Payload: []byte{byte(k), byte(k >> 8)}}))
+		}
+	})
+	last, since := floodAt.Load(), time.Now()
+	for time.Since(t0) < reconnect-20*time.Millisecond && !floodDone.Load() {
+		time.Sleep(500 * time.Microsecond)
+		if k := floodAt.Load(); k != last {
+			last, since = k, time.Now()
+		} else if time.Since(since) > 3*time.Millisecond {
+			break
+		}
+	}
+	full := !floodDone.Load()
+	// the reaper's turn: wait until the members are due and a few reaper ticks have passed
+	for time.Since(t0) < reconnect+25*time.Millisecond {
+		time.Sleep(time.Millisecond)
+	}
+	back := rng.Intn(nm)
+	var rejoined atomic.Bool
+	g.Go(func() {
+		nd.NotifyJoin(node(back, "2"))
+		rejoined.Store(true)
+	})
+	time.Sleep(time.Duration(5+rng.Intn(20)) * time.Millisecond)
+	if full && !rejoined.Load() {
+		stats["reaper_rounds_with_the_rejoin_waiting_behind_the_reaper"]++
+	}
+	pause.Store(false) // the application reads again
+	g.Wait()
+	// let the reaper finish with the members that are due before the marker is sent
+	for i := 0; i < 400; i++ {
+		time.Sleep(time.Millisecond)
+		if len(nd.S.Members()) <= 2 {
+			break
+		}
+	}
+	_ = nd.S.UserEvent("reaper-end", nil, false)
+	select {
+	case <-done:
+	case <-time.After(60 * time.Second):
+		stats["reaper_watchdog"]++
+		pause.Store(false)
+		go func() {
+			for range nd.Ch {
+			}
+		}()
+		nd.Close()
+		return nil, stats
+	}
+	status := map[string]string{}
+	for _, m := range nd.S.Members() {
+		status[m.Name] = m.Status.String()
+	}
+	go func() { // keep draining so that the shutdown cannot block
+		for range nd.Ch {
+		}
+	}()
+	nd.Close()
+	stats["reaper_rounds"]++
+	for i := 0; i < nm; i++ {
+		name := fmt.Sprintf("m%d", i)
+		seqv := got[name]
+		stats["reaper_member_events_received"] += len(seqv)
+		show := fmt.Sprint(seqv)
+		for k, e := range seqv {
+			if e.kind == "reap" {
+				stats["reaper_reap_events"]++
+				if k == 0 || (seqv[k-1].kind != "failed" && seqv[k-1].kind != "leave") {
+					viols = append(viols, fmt.Sprintf("member %s (of %d failed members, reconnect timeout %v, member m%d rejoining while the reaper's events wait for the application): reap event follows %v, not a failed or leave event; events received for it: %s; the node lists it as %q", name, nm, reconnect, back, func() any {
+						if k == 0 {
+							return "nothing"
+						}
+						return seqv[k-1]
+					}(), show, status[name]))
+				}
+			}
+		}
+		if len(seqv) == 0 {
+			continue
+		}
+		lastEv := seqv[len(seqv)-1]
+		st, listed := status[name]
+		ok := true
+		switch lastEv.kind {
+		case "reap":
+			ok = !listed
+		case "join", "update":
+			ok = listed && st == "alive"
+		case "failed":
+			ok = listed && st == "failed"
+		}
+		if !ok {
+			viols = append(viols, fmt.Sprintf("member %s: the last event received is %s(v%s) but the node lists it as %q (listed=%v); events received for it: %s", name, lastEv.kind, lastEv.v, st, listed, show))
+		}
+	}
+	return viols, stats
+}
+
 func TestC16(t *testing.T) {
 	r := evid.Start(t, "C16", "exploration")
 	if os.Getenv("VERIF_PHASE") != "race" {
@@ -317,6 +475,19 @@ func TestC16(t *testing.T) {
 			}
 			if viol != "" {
 				r.Violation("burst-reordered", ci, viol, viol)
+			}
+		})
+		r.Cases("reaper", r.N(40, 800), 4, func(ci int, rng *rand.Rand) {
+			viols, stats := c16Reaper(rng, ci)
+			r.Eval(1)
+			for k, v := range stats {
+				r.Count(k, v)
+			}
+			if stats["reaper_watchdog"] > 0 {
+				r.Inconclusive("reaper phase: end marker not seen within 60 s (watchdog)")
+			}
+			for _, v := range viols {
+				r.Violation("reaper-and-rejoin", ci, v, v)
 			}
 		})
 		r.Cases("racing", r.N(24, 600), 3, func(ci int, rng *rand.Rand) {
